@@ -479,7 +479,9 @@ func (f *Frame) appendOp(st *State, r *Term, cc *ssa.CallCommon, pos token.Pos) 
 		if nv, ok := n.intVal(); ok && nv == 1 {
 			idx = Slot(do, dl)
 		}
-		f.check("frame", "append:"+describe(cc.Args[0]), r, Or(Eq(n, IntLit(0)), Not(inplace), f.writeAllowed(st, en, db, idx)), pos)
+		if !spareCapacity(f.top().contract) {
+			f.check("frame", "append:"+describe(cc.Args[0]), r, Or(Eq(n, IntLit(0)), Not(inplace), f.writeAllowed(st, en, db, idx)), pos)
+		}
 	}
 	st.alloc = f.ctx.name("alloc", Ite(inplace, st.alloc, Add(nb, IntLit(1))))
 	st.heap[en] = f.ctx.name("E", Store(E, nb, ne))
